@@ -183,15 +183,19 @@ Fixpoint frag_names (fuel : nat) (frs : list fdef) (names : list string) : optio
   match fuel with
   | O => match names with [] => Some [] | _ => None end
   | S fuel' =>
-      fold_left (fun acc n =>
-        match acc, lookup_fdef frs n with
-        | Some l, Some f =>
-            match frag_names fuel' frs (sel_spreads (fd_sel f)) with
-            | Some l' => Some (l ++ n :: l')
-            | None => None
-            end
-        | _, _ => None
-        end) names (Some [])
+      (fix go (ns : list string) : option (list string) :=
+         match ns with
+         | [] => Some []
+         | n :: r =>
+             match lookup_fdef frs n with
+             | None => None
+             | Some f =>
+                 match frag_names fuel' frs (sel_spreads (fd_sel f)), go r with
+                 | Some a, Some b => Some (n :: a ++ b)
+                 | _, _ => None
+                 end
+             end
+         end) names
   end.
 
 Definition related (fuel : nat) (frs : list fdef) (mix unp : list string) : option (list string) :=
@@ -244,10 +248,10 @@ Definition method_opname (o : opdef) : string := o_name o.
 
 (* ---- the specification side ---- *)
 (* reachable fragments: least fixed point of "spread from" *)
-Inductive reach (frs : list fdef) : list string -> string -> Prop :=
-| reach_direct names n : In n names -> reach frs names n
-| reach_step names m f n : reach frs names m -> lookup_fdef frs m = Some f ->
-                           In n (sel_spreads (fd_sel f)) -> reach frs names n.
+Inductive reach (frs : list fdef) (names : list string) : string -> Prop :=
+| reach_direct n : In n names -> reach frs names n
+| reach_step m f n : reach frs names m -> lookup_fdef frs m = Some f ->
+                     In n (sel_spreads (fd_sel f)) -> reach frs names n.
 
 (* erase the automatic __typename nodes *)
 Fixpoint erase_sel (s : fsel) : list fsel :=
